@@ -519,11 +519,17 @@ func (s *Sched) Run(n int, body func(c int)) {
 // SetupRandom configures the generation strategy from the run's seed (swarm style).
 //
 //go:norace
-func (s *Sched) SetupRandom(r *RNG, n int, expectYields uint64) string {
+func (s *Sched) SetupRandom(r *RNG, n int, expectYields uint64, contention bool) string {
 	s.rng = r.Fork(0x5c4ed)
 	k := r.Intn(8)
 	if k >= 6 && len(syncBits) > 0 {
 		k = 8 + r.Intn(2)
+	}
+	if contention && len(syncBits) > 0 && r.Intn(8) > 0 {
+		k = 8 + r.Intn(4)
+		if k > 9 {
+			k = 9
+		}
 	}
 	switch k {
 	case 9: // switches only at synchronisation statements (and operation boundaries)
